@@ -84,7 +84,13 @@ func (x *c18Rig) attach(i int) {
 
 func (x *c18Rig) sub(i int, on bool) {
 	x.attach(i)
-	x.pups[i].Send(x.r.nd.ID(), vSubRPC(on, "t"))
+	rpc := vSubRPC(on, "t")
+	if on && x.c.Chance(0.4) {
+		// the announcement carries partial-message options (a repeated announcement may change them: the peer set does not change)
+		a, b := x.c.Chance(0.5), x.c.Chance(0.5)
+		rpc.Subscriptions[0].RequestsPartial, rpc.Subscriptions[0].SupportsSendingPartial = &a, &b
+	}
+	x.pups[i].Send(x.r.nd.ID(), rpc)
 	vSettle(5 * time.Millisecond)
 }
 
